@@ -27,15 +27,26 @@ GEN_MODULES = ["SigHash"]
 RULE = ("op lines come from one seeded PRNG: transactions of 1..6 inputs and 0..6 outputs with 32-bit / 64-bit field "
         "extremes, script codes built from op-code chunks (OP_CODESEPARATOR inside and outside pushes, truncated "
         "pushes), every low hash-type byte with and without high bits, the seven taproot types x annex x key/script "
-        "path, standard and malformed prevout scripts for from_tx and the PSBT dispatch; plus Core's sighash.json. "
+        "path, standard and malformed prevout scripts for from_tx (plus a deterministic dispatch table: taproot stacks "
+        "of 0..4 elements whose last element does / does not start with 0x50, every previous-output type bare and "
+        "P2SH-wrapped, codeseparator indices 0..3) and the PSBT dispatch (witness utxo / non-witness utxo / both, "
+        "index outside the input maps, a map without utxo); plus Core's sighash.json, BIP143's and BIP341's published "
+        "examples and one Core-made signed script path spend. "
         "A case is non-trivial when the implementation answered with a digest; distinct = distinct (stream, op line)")
 TRUSTED = [
     "SHA-256 / RIPEMD-160 instances of the hash parameters: executable Lean models validated against hashlib each run",
-    "Model/C09/Impl.lean (btclib-shaped functions incl. exceptions, from_tx and the PSBT dispatch) is tied to "
-    "btclib by correspondence; that its legacy / segwit_v0 / taproot compute the digests of the proved specification "
-    "Model/C09/Sighash.lean is a theorem (Props/C09.lean, layer tie) and re-checked by the driver on every accepted "
-    "line (`specdiff`)",
-    "PSBT parsing/serialization (Psbt, PsbtView maps) is C05/C11's: here a psbt is built from the fields on the line",
+    "Model/C09/Impl.lean (btclib-shaped functions incl. exceptions, from_tx, taproot_annex_and_ext, redeem_script, the "
+    "PSBT maps: _prev_out, _assert_input_index, ecdsa_sig_hash / taproot_sig_hash, PsbtView.taproot_sig_hash) is tied "
+    "to btclib by correspondence; that its legacy / segwit_v0 / taproot and the PSBT entry points compute the digests "
+    "of the proved specification Model/C09/Sighash.lean is a theorem (Props/C09.lean: layer tie, T5) and re-checked by "
+    "the driver on every accepted line (`specdiff`)",
+    "PSBT parsing/serialization (Psbt, PsbtView maps) and Psbt.assert_valid are C05/C11's: here a psbt is built from "
+    "the fields on the line and the model starts past assert_valid",
+    "the reference routines of the dispatch oracles (ref_dispatch, ref_annex_and_ext, ref_ops, ref_bip341) are the "
+    "harness's own transcriptions of BIP16/141/143/341/342 over hashlib; the signed script path spend is verified "
+    "with btclib's ssa (property C03's)",
+    "FindAndDelete belongs to the script engine (script/engine/script.py: C08 models and streams it); sig_hash.legacy "
+    "elides OP_CODESEPARATORs only, which is what T4 is about",
 ]
 ASSUMPTIONS = ["collision resistance of SHA-256 is not assumed by any theorem: the commitment theorems construct the "
                "colliding pair explicitly"]
